@@ -1,5 +1,5 @@
 SPECIFICATION Spec
-CONSTANTS NMsg = 3  MaxCnt = 4  MaxDeliv = 10  FixCount = TRUE  DupCheck = TRUE
+CONSTANTS NMsg = 3  MaxCnt = 4  MaxDeliv = 10  FreshPktID = TRUE  FixCount = TRUE  DupCheck = TRUE
   GridD <- GD  GridH <- GH  GridL <- GL
 INVARIANT PrintScn
 CHECK_DEADLOCK FALSE
